@@ -54,7 +54,9 @@ impl LyNative for Print {
       if index != 0 {
         output.push(' ');
       }
-      output.push_str(&hooks.call_method(*s, str_method, &[])?.to_obj().to_str())
+      // a user defined str() may answer something other than a string
+      // such a value is written in its builtin form
+      output.push_str(&hooks.call_method(*s, str_method, &[])?.to_string())
     }
 
     let mut stdio = hooks.as_io().stdio();
